@@ -47,12 +47,9 @@ func C17(c *Ctx) {
 				}
 			}
 		}
+		// (under which condition the error is added is decided on the paths of read(), obligation T.read:accounting)
 		okG := len(guards) == 1 && uses == 1
-		if okG {
-			g := strings.Join(guards[0], " ; ")
-			okG = g == "rn==utf8.RuneError&&n==1 ; !p.allowInvalidUTF8" || g == "rn==utf8.RuneError&&n==1&&!p.allowInvalidUTF8"
-		}
-		r.Check(okG, "C17-a", "T.read:invalid-encoding-guard", vn, "builder/static_code.go", "error added under rn == RuneError && n == 1 && !allowInvalidUTF8 only", fmt.Sprintf("guards %v, %d uses of errInvalidEncoding", guards, uses))
+		r.Check(okG, "C17-a", "T.read:invalid-encoding-guard", vn, "builder/static_code.go", "errInvalidEncoding is used once, by the addErr call in read()", fmt.Sprintf("%d addErr(errInvalidEncoding) calls in read() (guards %v), %d uses of errInvalidEncoding in the runtime", len(guards), guards, uses))
 		// ---- b
 		sf := v.Func("parser", "sliceFrom")
 		okS := false
@@ -98,7 +95,11 @@ func C17(c *Ctx) {
 }
 
 // c01e2 is C01-e under another rule id.
-func c01e2(c *Ctx, a *absVariant, rule string) {
+func c01e2(c *Ctx, a *absVariant, rule string, why ...string) {
+	whyText := "at EOF the pseudo-rune is U+FFFD (width 0), so U+FFFD 'matches' the empty tail and the invalid-byte and end-of-input cases are confused"
+	if len(why) > 0 {
+		whyText = why[0]
+	}
 	r := c.R
 	for _, fn := range []string{"parseAnyMatcher", "parseCharClassMatcher", "parseLitMatcher"} {
 		res := a.Res[fn]
@@ -112,7 +113,7 @@ func c01e2(c *Ctx, a *absVariant, rule string) {
 			for _, ev := range eventsOf(e, "read") {
 				n++
 				if ev.Args[0] != "notEOF" {
-					bad = append(bad, a.V.Where(ev.Pos)+": read() reachable without an end-of-input test: at EOF the pseudo-rune is U+FFFD (width 0), so U+FFFD 'matches' the empty tail and the invalid-byte and end-of-input cases are confused")
+					bad = append(bad, a.V.Where(ev.Pos)+": read() reachable without an end-of-input test: "+whyText)
 				}
 			}
 		}
